@@ -315,7 +315,8 @@ def gen_lf(rng, li, max_frames=30, names_pool=None, origin=None, waves=False):
                     # is an ordinary one, possibly a waveform or an image
                     dims = rng.wpick([(2, [rng.randrange(2, 6)]), (2, [rng.randrange(30, 72)]), (1, [rng.randrange(72, 300)]), (1, [rng.randrange(2, 9), rng.randrange(2, 9)])])
             elif waves and rng.chance(0.15):
-                dims = rng.wpick([(2, [rng.randrange(30, 72)]), (1, [rng.randrange(72, 300)]), (1, [rng.randrange(4, 12), rng.randrange(4, 12)])])
+                dims = rng.wpick([(4, [rng.randrange(30, 72)]), (2, [rng.randrange(72, 300)]), (2, [rng.randrange(4, 12), rng.randrange(4, 12)]),
+                                  (1, [rng.pick([512, 511, 513, 1024, rng.randrange(500, 1100)])]), (1, [rng.pick([4, 8, 16]), rng.pick([128, 64, 130])])])
             else:
                 dims = rng.wpick([(6, [1]), (2, [rng.randrange(2, 6)]), (1, [rng.randrange(2, 4), rng.randrange(2, 4)]), (1, [1, 1])])
             channels.append({'name': name, 'rep': rep, 'dims': dims, 'units': rng.pick(UNITS_POOL), 'long': name + ' long name'})
@@ -323,6 +324,8 @@ def gen_lf(rng, li, max_frames=30, names_pool=None, origin=None, waves=False):
         nrows = rng.wpick([(1, 1), (2, rng.randrange(2, 5)), (5, rng.randrange(min(3, max_frames), max_frames + 1))])
         if any(len(channels[c]['dims']) > 1 or channels[c]['dims'][0] > 29 for c in idx):
             nrows = min(nrows, 8)
+        if any(np.prod(channels[c]['dims']) > 400 for c in idx):
+            nrows = min(nrows, 3)
         x0 = rng.pick([100.0, 2889.4, 0.0, 5000.0, 12.5])
         dx = rng.pick([0.5, 1.5, -0.25, 0.1524, 1.0, 10.0])
         # frame numbers are UVARI: 1, 2 or 4 bytes, changing at 128 and 16384; logs do not all start at frame 1
